@@ -145,6 +145,20 @@ func (e *Ext) seqSlice(x *ssa.Slice) []Atom {
 			}
 		}
 	}
+	// a local byte array (var buf [N]byte / [N]byte{}) written through its slices and returned as buf[:]
+	if al, ok := x.X.(*ssa.Alloc); ok && al.Comment != "makeslice" && al.Comment != "varargs" && al.Comment != "slicelit" && x.Low == nil && x.High == nil {
+		if arr, ok := deref(al.Type()).Underlying().(*types.Array); ok && elemWidth(arr.Elem()) == 1 {
+			hasElemStore := false
+			for _, r := range *al.Referrers() {
+				if _, isIA := r.(*ssa.IndexAddr); isIA {
+					hasElemStore = true
+				}
+			}
+			if !hasElemStore || len(*al.Referrers()) > 1 {
+				return e.seqFixedBuf(al, arr.Len())
+			}
+		}
+	}
 	if al, ok := x.X.(*ssa.Alloc); ok {
 		if arr, ok := deref(al.Type()).Underlying().(*types.Array); ok && x.Low == nil && x.High == nil {
 			n := int(arr.Len())
